@@ -7,6 +7,8 @@ import (
 	"crypto/sha256"
 	"crypto/subtle"
 	"sort"
+
+	"massnet.org/mass/poc/wallet/db"
 )
 
 // This file exists only under the build tag "verif".  It gives the conformance harness in /verif a
@@ -102,4 +104,36 @@ func VerifState(kmc *KeystoreManagerForPoC) (unlocked bool, out []VerifKeystoreS
 	}
 	sort.Slice(out, func(i, j int) bool { return out[i].ID < out[j].ID })
 	return kmc.unlocked, out
+}
+
+// VerifPublicUnseals lists, per keystore, the stored private blobs that open with the public crypto key alone
+// (i.e. with nothing but the public passphrase).  Read-only.
+func VerifPublicUnseals(kmc *KeystoreManagerForPoC) map[string][]string {
+	kmc.mu.Lock()
+	defer kmc.mu.Unlock()
+	out := map[string][]string{}
+	for id, a := range kmc.managedKeystores {
+		a.mu.Lock()
+		if a.cryptoKeyPub != nil {
+			_ = db.View(kmc.db, func(tx db.ReadTransaction) error {
+				b := tx.FetchBucket(a.storage)
+				if b == nil {
+					return nil
+				}
+				if privEnc, _, err := fetchMasterHDKeys(b); err == nil && len(privEnc) > 0 {
+					if _, err := a.cryptoKeyPub.Decrypt(privEnc); err == nil {
+						out[id] = append(out[id], "masterHDPrivKeyEnc")
+					}
+				}
+				return nil
+			})
+			if len(a.acctInfo.acctKeyEncrypted) > 0 {
+				if _, err := a.cryptoKeyPub.Decrypt(a.acctInfo.acctKeyEncrypted); err == nil {
+					out[id] = append(out[id], "acctKeyEncrypted")
+				}
+			}
+		}
+		a.mu.Unlock()
+	}
+	return out
 }
